@@ -62,7 +62,15 @@ def collect_instructions(year, fname):
             unparsed.append(f'{line} (override: {overrides[key][:80]})')
     tr = transcribed().get(str(year), {}).get(fname.split(':')[0], {})
     for line, ent in tr.items():
-        if ent.get('verbatim'):
+        if ent.get('verbatim') and ent.get('verbatim_booklet'):
+            # ... or in an official instruction booklet bundled with the repository (decoded by pyvc/pdftext.py)
+            from .. import pdftext
+            bp = os.path.join(extract.REPO, 'habutax', 'forms', f'ty{year}', 'instructions', ent['verbatim_booklet'])
+            ok = pdftext.norm(ent['verbatim']) in pdftext.norm(pdftext.text(bp))
+            if not ok:
+                unparsed.append(f'{line} (transcribed sentence not found in the bundled booklet {ent["verbatim_booklet"]})')
+                continue
+        elif ent.get('verbatim'):
             # a transcription that claims to be the template's own text must occur verbatim in the bundled PDF
             vf = cat.forms.get(ent.get('verbatim_form', fname))
             ok = False
@@ -75,10 +83,38 @@ def collect_instructions(year, fname):
             if line not in out:
                 out[line] = (('carry', ent['carry'][0], ent['carry'][1]), f'transcribed:{ent["source"]}: {ent["text"]}')
             continue
+        if ent.get('term'):
+            if line not in out:
+                out[line] = (_term_of_json(ent['term']), f'transcribed:{ent["source"]}: "{ent["text"]}"')
+            continue
         r = instr.parse(ent['text'], ent.get('order'), line)
         if r is not None and line not in out:
-            out[line] = (r[0], f'transcribed:{ent["source"]}: "{ent["text"]}"')
+            t = _prefixed(r[0], ent['prefix']) if ent.get('prefix') else r[0]
+            out[line] = (t, f'transcribed:{ent["source"]}: "{ent["text"]}"')
     return out, unparsed
+
+
+def _term_of_json(j):
+    if isinstance(j, list) and j and j[0] == 'line':
+        return ('line', j[1], j[2])
+    if isinstance(j, list) and j and j[0] == 'const':
+        return ('const', Fraction(j[1]))
+    if isinstance(j, list) and j and j[0] in ('add', 'min', 'max'):
+        return (j[0], [_term_of_json(x) for x in j[1]])
+    if isinstance(j, list) and j:
+        return tuple([j[0]] + [_term_of_json(x) for x in j[1:]])
+    return j
+
+
+def _prefixed(t, prefix):
+    """Worksheet lines are named '<prefix><n>' in the catalogue ('clwkst_a_3'): rename same-form line references."""
+    if isinstance(t, tuple) and t and t[0] == 'line' and t[1] is None:
+        return ('line', None, prefix + t[2])
+    if isinstance(t, tuple):
+        return tuple(_prefixed(x, prefix) for x in t)
+    if isinstance(t, list):
+        return [_prefixed(x, prefix) for x in t]
+    return t
 
 
 class NoSuchLine(Exception):
